@@ -156,7 +156,7 @@ def check_forwarding(chk, c, rule, params, scope_names=None, exempt=None, only_c
                     if sc is None:
                         # the call describes an element through one of its attributes (f(el.datatype)): that element's own P
                         # is the context the callee needs
-                        owner = arg_owner_with(te, c.index, s.fn, s.node, P)
+                        owner = arg_owner_with(te, c.index, s.fn, s.node, P) if P in ('version', 'validation_level') else None
                         if owner is None:
                             continue
                         sc = 'attribute of `%s`' % owner
@@ -263,4 +263,40 @@ def dead_context_params(chk, c, rule, params, modules=('core', 'parser', 'factor
                 chk.fail(rule, '%s never uses its %s' % (fn.qualname, P),
                          'the function accepts (and resolves) %s but nothing it does depends on it any more: whatever it computes uses '
                          'some other %s (a default, or that of another object)' % (P, P), fn.loc, key='%s|%s|%s' % (rule, fn.qualname, P))
+    return n
+
+
+UNUSED_OK = {
+    ('core.Field._get_children', 'trailing'): 'uniform _get_children signature; a field always trims (the encoder passes it on)',
+    ('core.SupportComplexDataType._get_children', 'trailing'): 'uniform _get_children signature',
+    ('core.SubComponent.add', 'obj'): 'always refuses: a subcomponent has no children',
+    ('core.SubComponent.to_er7', 'trailing_children'): 'uniform to_er7 signature; a leaf has no children to trim',
+}
+
+
+def dead_params(chk, c, rule, select):
+    """every parameter of the selected functions is read somewhere in the function: a parameter that is accepted and never
+    looked at means the caller's argument (an index, a flag, a report file) silently has no effect"""
+    n = 0
+    for fq, fi in sorted(c.index.functions.items()):
+        if not select(fi):
+            continue
+        if fi.outer is not None and any(isinstance(x, ast.Name) and x.id == fi.name and isinstance(x.ctx, ast.Load) and
+                                        not (isinstance(getattr(x, '_parent', None), ast.Call) and x._parent.func is x)
+                                        for x in ast.walk(fi.outer.node)):
+            continue        # a local function handed over as a callback: its signature is dictated by the caller
+        loads = {x.id for x in ast.walk(fi.node) if isinstance(x, ast.Name) and isinstance(x.ctx, (ast.Load, ast.Del))}
+        for p in fi.params + fi.kwonly:          # *args / **kwargs exist to swallow what an interface may pass
+            if not p or p in ('self', 'cls'):
+                continue
+            n += 1
+            if p in loads:
+                continue
+            why = UNUSED_OK.get((fq, p)) or INTERFACE_ONLY.get((fq, p))
+            if why:
+                chk.ok(rule, '%s uses its %s' % (fq, p), 'exempt: ' + why, fi.loc, key='%s|%s|%s' % (rule, fq, p))
+            else:
+                chk.fail(rule, '%s uses its %s' % (fq, p),
+                         'the parameter `%s` is never read: whatever the caller passes for it has no effect' % p, fi.loc,
+                         key='%s|%s|%s' % (rule, fq, p))
     return n
